@@ -27,7 +27,9 @@ type cBool struct {
 }
 
 type cStmt struct {
-	k          string // skip seq assign print ite loop brk cont
+	k          string // skip seq assign print ite loop brk cont brkL contL
+	lab        *loopInfo // loop: its label; brkL / contL: the loop they name
+	depth      int       // brkL / contL: number of loops between the statement and the one it names
 	x          int
 	e          *cExpr
 	c          *cBool
@@ -121,6 +123,8 @@ func (s *cStmt) sexp() string {
 	switch s.k {
 	case "skip", "brk", "cont":
 		return s.k
+	case "brkL", "contL":
+		return fmt.Sprintf("(%s %d)", s.k, s.depth)
 	case "seq":
 		return "(seq " + s.a.sexp() + " " + s.b.sexp() + ")"
 	case "assign":
@@ -169,6 +173,10 @@ func (s *cStmt) render(b *strings.Builder, ind int) {
 		b.WriteString(tab + "break\n")
 	case "cont":
 		b.WriteString(tab + "continue\n")
+	case "brkL":
+		fmt.Fprintf(b, "%sbreak L%d\n", tab, s.lab.id)
+	case "contL":
+		fmt.Fprintf(b, "%scontinue L%d\n", tab, s.lab.id)
 	case "seq":
 		s.a.render(b, ind)
 		s.b.render(b, ind)
@@ -218,6 +226,9 @@ func (s *cStmt) render(b *strings.Builder, ind int) {
 		}
 		b.WriteString(tab + "}\n")
 	case "loop":
+		if s.lab != nil && s.lab.used {
+			fmt.Fprintf(b, "%sL%d:\n", tab, s.lab.id)
+		}
 		post := ""
 		if s.b.k == "assign" {
 			post = fmt.Sprintf("v%d = %s", s.b.x, s.b.e.goSrc())
@@ -238,7 +249,16 @@ func (s *cStmt) render(b *strings.Builder, ind int) {
 	}
 }
 
+// loopInfo is the label of a loop; the label is rendered only when some break / continue names it.
+type loopInfo struct {
+	id        int
+	used      bool
+	labelable bool // not inside a switch clause (a label there is the recorded finding F43)
+}
+
 type coreGen struct {
+	loops      []*loopInfo // enclosing loops of the function being generated, outermost first
+	nlabels    int
 	r          *rand.Rand
 	nvars      int
 	ro         map[int]bool // variables that must not be assigned (loop counters)
@@ -376,19 +396,23 @@ func (g *coreGen) stmt(depth int) *cStmt {
 		inc := &cStmt{k: "assign", x: w, e: &cExpr{k: "bin", op: "add", a: &cExpr{k: "var", n: int64(w)}, b: &cExpr{k: "lit", n: 1}}}
 		init := &cStmt{k: "assign", x: w, e: &cExpr{k: "lit", n: int64(g.r.Intn(2))}}
 		g.inLoop++
+		g.nlabels++
+		li := &loopInfo{id: g.nlabels, labelable: g.inSwitch == 0}
+		g.loops = append(g.loops, li)
 		var l *cStmt
 		switch g.r.Intn(4) {
 		case 0: // for cond { w++; body }
 			body := &cStmt{k: "seq", a: inc, b: g.block(depth + 1)}
-			l = &cStmt{k: "seq", a: init, b: &cStmt{k: "loop", c: cnd, a: body, b: &cStmt{k: "skip"}}}
+			l = &cStmt{k: "seq", a: init, b: &cStmt{k: "loop", c: cnd, a: body, b: &cStmt{k: "skip"}, lab: li}}
 		case 1: // for ; cond; post { body }
-			l = &cStmt{k: "seq", a: init, b: &cStmt{k: "loop", c: cnd, a: g.block(depth + 1), b: inc}}
+			l = &cStmt{k: "seq", a: init, b: &cStmt{k: "loop", c: cnd, a: g.block(depth + 1), b: inc, lab: li}}
 		case 2: // for w = init; cond; post { body }
-			l = &cStmt{k: "loop", c: cnd, a: g.block(depth + 1), b: inc, init: init}
+			l = &cStmt{k: "loop", c: cnd, a: g.block(depth + 1), b: inc, init: init, lab: li}
 		default: // for w := init; cond; post { body }
 			g.declare[w] = true
-			l = &cStmt{k: "loop", c: cnd, a: g.block(depth + 1), b: inc, init: init, declareVar: true}
+			l = &cStmt{k: "loop", c: cnd, a: g.block(depth + 1), b: inc, init: init, declareVar: true, lab: li}
 		}
+		g.loops = g.loops[:len(g.loops)-1]
 		g.inLoop--
 		if g.declare[w] {
 			g.dead[w] = true
@@ -446,6 +470,15 @@ func (g *coreGen) stmt(depth int) *cStmt {
 		g.inSwitch--
 		return sw
 	case k == 10 && g.inLoop > 0:
+		if g.r.Intn(2) == 0 {
+			// labelled break / continue naming one of the enclosing loops
+			d := g.r.Intn(len(g.loops))
+			if li := g.loops[len(g.loops)-1-d]; li.labelable {
+				li.used = true
+				kw := []string{"brkL", "contL"}[g.r.Intn(2)]
+				return &cStmt{k: "ite", c: g.cond(1), a: &cStmt{k: kw, lab: li, depth: d}, b: &cStmt{k: "skip"}}
+			}
+		}
 		kw := []string{"brk", "cont"}[g.r.Intn(2)]
 		return &cStmt{k: "ite", c: g.cond(1), a: &cStmt{k: kw}, b: &cStmt{k: "skip"}}
 	default:
@@ -592,6 +625,12 @@ func coreStream(run *common.Run) {
 			run.Hit("core:end:" + gs[i].End)
 			if strings.Contains(terms[i], " brk") || strings.Contains(terms[i], " cont") {
 				run.Hit("core:break-or-continue")
+			}
+			if strings.Contains(terms[i], "(brkL ") || strings.Contains(terms[i], "(contL ") {
+				run.Hit("core:labelled-break-or-continue")
+			}
+			if strings.Contains(terms[i], "(brkL 1)") || strings.Contains(terms[i], "(contL 1)") || strings.Contains(terms[i], "(brkL 2)") || strings.Contains(terms[i], "(contL 2)") {
+				run.Hit("core:labelled-outer-loop")
 			}
 			if strings.Contains(terms[i], "(switch ") {
 				run.Hit("core:switch")
